@@ -278,6 +278,12 @@ func c18Run(ctx *vc.Ctx, rep *vc.Report) {
 			s.Name = "race:" + s.Name
 			convs = append(convs, s)
 		}
+		// a sub-package transfer that stalls for more than 5 s: the reader builds the re-request from the first packet's
+		// header, which it handed to the writer long ago
+		for _, plain := range []bool{false, true} {
+			convs = append(convs, convScn{Name: fmt.Sprintf("race:conv:stalled-transfer:plain=%v", plain), Plain: plain, IdleMs: []int{0, 0, 5001, 0},
+				Conns: [][]tmsg{{{ID: 0x0002, Phone: p1, Serial: 1}, {ID: 0x0801, Phone: p1, Serial: 2, Total: 3, Number: 1, Body: "000000aa0000010211223344556677889900112233445566778899001122334455667788"}, {ID: 0x0002, Phone: p1, Serial: 3}, {ID: 0x0002, Phone: p1, Serial: 4}}}})
+		}
 		for _, s := range convs {
 			one("conv", s.Name, s, convMake(s))
 		}
